@@ -105,6 +105,15 @@ func blockHashOf(d *engine.ExecutableData, reqs [][]byte) common.Hash {
 	for _, r := range reqs {
 		h.Write(r)
 	}
+	// the blob-gas header fields are part of a real block hash as well
+	for _, p := range []*uint64{d.BlobGasUsed, d.ExcessBlobGas} {
+		v := uint64(0)
+		if p != nil {
+			v = *p
+		}
+		binary.BigEndian.PutUint64(b[:], v)
+		h.Write(b[:])
+	}
 	return common.BytesToHash(h.Sum(nil))
 }
 
@@ -123,6 +132,8 @@ func (a *engineAPI) ForkchoiceUpdatedV3(update engine.ForkchoiceStateV1, attrs *
 		return engine.ForkChoiceResponse{PayloadStatus: engine.PayloadStatusV1{Status: engine.SYNCING}}, nil
 	case "timeout":
 		time.Sleep(1500 * time.Millisecond)
+	case "slow": // a correct answer from a loaded execution client
+		time.Sleep(800 * time.Millisecond)
 	}
 	resp := engine.ForkChoiceResponse{PayloadStatus: engine.PayloadStatusV1{Status: engine.VALID}}
 	if attrs == nil {
@@ -147,6 +158,10 @@ func (a *engineAPI) ForkchoiceUpdatedV3(update engine.ForkchoiceStateV1, attrs *
 		GasLimit: 30000000, GasUsed: 21000, Timestamp: uint64(int64(attrs.Timestamp) + e.tsSkew), ExtraData: extra,
 		BaseFeePerGas: big.NewInt(7), Transactions: txs, Withdrawals: []*ethtypes.Withdrawal{},
 		BlobGasUsed: new(uint64), ExcessBlobGas: new(uint64),
+	}
+	// blocks after a period of blob use: no blob gas used, excess still decaying (deterministic in the parent)
+	if update.HeadBlockHash[0]%3 == 0 {
+		*d.ExcessBlobGas = 0x20000 * uint64(1+update.HeadBlockHash[1]%4)
 	}
 	reqs := e.nextReqs
 	d.BlockHash = blockHashOf(d, reqs)
@@ -197,6 +212,8 @@ func (a *engineAPI) NewPayloadV4(d engine.ExecutableData, versionedHashes []comm
 		return engine.PayloadStatusV1{Status: engine.SYNCING}, nil
 	case "accepted":
 		return engine.PayloadStatusV1{Status: engine.ACCEPTED}, nil
+	case "slow": // a correct answer from a loaded execution client
+		time.Sleep(800 * time.Millisecond)
 	}
 	// a well-behaved EL recomputes the block hash
 	reqs := make([][]byte, len(requests))
